@@ -6,6 +6,7 @@ use vstd::std_specs::cmp::*;
 use std::ffi::OsString;
 use std::ops::Range;
 use std::rc::Rc;
+use std::marker::PhantomData;
 
 verus! {
 
@@ -47,6 +48,12 @@ pub mod prelude {
         ensures <OsString as PartialEqSpec<str>>::obeys_eq_spec(),
     {}
 
+    #[verifier::external_trait_specification]
+    pub trait ExToString {
+        type ExternalTraitSpecificationFor: std::string::ToString;
+        fn to_string(&self) -> String;
+    }
+
     /// bpaf::Doc (src/buffer.rs): opaque, no unit reads its contents (T8)
     #[verifier::external_body]
     pub struct Doc { _opaque: () }
@@ -76,6 +83,7 @@ pub mod spec {
         /// representation invariant of the consumption ledger
         pub open spec fn wf(&self) -> bool {
             &&& self.item_state.len() == self.items.len()
+            &&& self.items.len() < usize::MAX
             &&& self.scope.start <= self.scope.end <= self.items.len()
             &&& self.remaining == count_present(self.item_state@, self.scope.start as int, self.scope.end as int)
         }
@@ -161,6 +169,42 @@ pub mod spec {
             _ => false,
         }
     }
+
+    /// error classes, written from the statement of C06/C09: "absent" classes may be defaulted, "present but invalid" are final
+    pub open spec fn catchable(m: Message) -> bool {
+        m is NoEnv || m is ParseSome || m is ParseFail || m is PureFailed || m is Missing || m is NonStrictPos
+    }
+
+    /// what every `eval` guarantees about the state it leaves: the ledger stays well formed, the item list is
+    /// the same and consumption is monotone (an item that was consumed never becomes available again)
+    pub open spec fn step(pre: State, post: State) -> bool {
+        &&& post.wf()
+        &&& post.items == pre.items
+        &&& forall|i: int| 0 <= i < pre.item_state.len() && !present(#[trigger] pre.item_state[i]) ==> !present(post.item_state[i])
+    }
+
+    /// relational denotation of `parse_option(p, &mut len, args, catch)`:
+    /// the inner parser runs once from `pre`; its value is kept iff something was consumed relative to `len0`;
+    /// its failure is swallowed (state restored to `pre`) iff `catch`, or it is `Missing` and nothing was consumed,
+    /// or it is a catchable non-`Missing` error; every other failure is returned unchanged with the state the inner left
+    pub open spec fn opt_rel<T, P: Parser<T>>(p: P, pre: State, len0: usize, catch: bool, r: Result<Option<T>, Error>, post: State, len1: usize) -> bool {
+        exists|ri: Result<T, Error>, mid: State| #[trigger] p.rel(pre, ri, mid) && step(pre, mid) && opt_case(pre, len0, catch, ri, mid, r, post, len1)
+    }
+
+    pub open spec fn swallows(pre: State, catch: bool, e: Message, mid: State) -> bool {
+        catch || (e is Missing && pre.remaining == mid.remaining) || (!(e is Missing) && catchable(e))
+    }
+
+    pub open spec fn opt_case<T>(pre: State, len0: usize, catch: bool, ri: Result<T, Error>, mid: State, r: Result<Option<T>, Error>, post: State, len1: usize) -> bool {
+        match ri {
+            Ok(v) => post == mid && (if mid.remaining < len0 { r == Ok::<Option<T>, Error>(Some(v)) && len1 == mid.remaining } else { r == Ok::<Option<T>, Error>(None) && len1 == len0 }),
+            Err(e) => len1 == len0 && (if swallows(pre, catch, e.0, mid) { r == Ok::<Option<T>, Error>(None) && restored(pre, mid, post) } else { r == Err::<Option<T>, Error>(e) && post == mid }),
+        }
+    }
+
+    /// `post` is `pre` again (completion bookkeeping, when compiled in, is taken from `mid`)
+    #[cfg(not(feature = "autocomplete"))]
+    pub open spec fn restored(pre: State, mid: State, post: State) -> bool { post == pre }
 
     impl State {
         /// i is the first available item of the scope
@@ -608,6 +652,306 @@ proof { axiom_os_eq_obeys(); assert(old(self).first_avail(ix as int)); }
         ensures
             r matches Some(p) ==> self.first_avail(p.0 as int) && self.item_state[p.0 as int] == ItemState::Conflict(p.1), // #first_available_item_is_conflict
             r is None ==> forall|k: int| #[trigger] self.first_avail(k) ==> !(self.item_state[k] is Conflict), // #none_iff_first_available_not_conflict
+//@@ end
+
+
+//@@ fn src/error.rs | impl Message | fn can_catch
+//@@ unit error.Message.can_catch tags=C06,C09,C01
+//@@ ret r
+//@@ spec
+        ensures r == catchable(*self), // #absence_classes_are_catchable_invalid_are_final
+//@@ end
+
+//@@ fn src/error.rs | impl Message | fn combine_with
+//@@ unit error.Message.combine_with tags=C10,C07,C06
+//@@ ret r
+//@@ spec
+        ensures
+            self is ParseFailure ==> r == self, // #final_output_on_left_wins
+            !(self is ParseFailure) && other is ParseFailure ==> r == other, // #final_output_on_right_wins
+            self is Missing && other is Missing ==> r is Missing && r->Missing_0@ == self->Missing_0@ + other->Missing_0@, // #missing_lists_concatenate_in_order
+            !(self is ParseFailure) && !(other is ParseFailure) && !(self is Missing && other is Missing)
+                ==> r == (if catchable(self) { other } else { self }), // #earliest_final_error_wins
+//@@ end
+
+//@@ fn src/error.rs | impl Error | fn combine_with
+//@@ unit error.Error.combine_with tags=C10,C07
+//@@ ret r
+//@@ spec
+        ensures
+            self.0 is ParseFailure ==> r.0 == self.0,
+            !(self.0 is ParseFailure) && other.0 is ParseFailure ==> r.0 == other.0,
+            self.0 is Missing && other.0 is Missing ==> r.0 is Missing && r.0->Missing_0@ == self.0->Missing_0@ + other.0->Missing_0@,
+            !(self.0 is ParseFailure) && !(other.0 is ParseFailure) && !(self.0 is Missing && other.0 is Missing)
+                ==> r.0 == (if catchable(self.0) { other.0 } else { self.0 }),
+//@@ end
+
+//@@ fn src/error.rs | impl ParseFailure | fn exit_code
+//@@ unit error.ParseFailure.exit_code tags=C11
+//@@ ret r
+//@@ spec
+        ensures
+            (self is Stdout || self is Completion) ==> r == 0, // #stdout_and_completion_exit_0
+            self is Stderr ==> r == 1, // #stderr_exits_1
+//@@ end
+
+
+// The trait every combinator implements.  Signature of `eval` as in src/lib.rs (checked by the extractor);
+// `pwf` (children and user closures are total) and `rel` (relational denotation) are ghost.
+pub trait Parser<T> {
+    spec fn pwf(&self) -> bool;
+    spec fn rel(&self, pre: State, r: Result<T, Error>, post: State) -> bool;
+    fn eval(&self, args: &mut State) -> (r: Result<T, Error>)
+        requires
+            self.pwf(),
+            old(args).wf(),
+        ensures
+            self.rel(*old(args), r, *final(args)), // #refines_rel
+            step(*old(args), *final(args)), // #step
+    ;
+}
+
+//@@ fn src/structs.rs | fn parse_option
+//@@ unit structs.parse_option tags=C01,C04,C05,C06,C20
+//@@ ret r
+//@@ spec
+        requires
+            parser.pwf(),
+            old(args).wf(),
+        ensures
+            opt_rel(*parser, *old(args), *old(len), catch, r, *final(args), *final(len)), // #refines_opt_rel
+            step(*old(args), *final(args)), // #step
+            r matches Ok(Some(_)) ==> *final(len) < *old(len) && *final(len) == final(args).remaining, // #value_only_if_consumed
+            !(r matches Ok(Some(_))) ==> *final(len) == *old(len),
+//@@ end
+
+
+//@@ type src/structs.rs | struct ParseOptional
+//@@ unit structs.ParseOptional tags=
+//@@ end
+
+//@@ fn src/structs.rs | impl Parser for ParseOptional | fn eval
+//@@ unit structs.ParseOptional.eval tags=C06,C01,C05
+//@@ members
+    open spec fn pwf(&self) -> bool { self.inner.pwf() }
+    open spec fn rel(&self, pre: State, r: Result<Option<T>, Error>, post: State) -> bool {
+        exists|l: usize| #[trigger] opt_rel(self.inner, pre, usize::MAX, self.catch, r, post, l)
+    }
+//@@ drop fn meta
+//@@ end
+
+//@@ type src/structs.rs | struct ParseGuard
+//@@ unit structs.ParseGuard tags=
+//@@ end
+
+//@@ fn src/structs.rs | impl Parser for ParseGuard | fn eval
+//@@ unit structs.ParseGuard.eval tags=C06
+//@@ members
+    open spec fn pwf(&self) -> bool {
+        self.inner.pwf() && forall|t: &T| #[trigger] self.check.requires((t,))
+    }
+    /// the inner outcome is passed through; a value the check rejects becomes the *final* error
+    /// GuardFailed(position of the item, declared message); the state is what the inner parser left
+    open spec fn rel(&self, pre: State, r: Result<T, Error>, post: State) -> bool {
+        exists|ri: Result<T, Error>| #[trigger] self.inner.rel(pre, ri, post) && match ri {
+            Ok(t) => exists|b: bool| #[trigger] self.check.ensures((&t,), b)
+                && (if b { r == Ok::<T, Error>(t) } else { r == Err::<T, Error>(Error(Message::GuardFailed(post.current, self.message))) }),
+            Err(e) => r == Err::<T, Error>(e),
+        }
+    }
+//@@ drop fn meta
+//@@ end
+
+//@@ type src/structs.rs | struct ParseMap
+//@@ unit structs.ParseMap tags=
+//@@ end
+
+//@@ fn src/structs.rs | impl Parser for ParseMap | fn eval
+//@@ unit structs.ParseMap.eval tags=C06
+//@@ members
+    open spec fn pwf(&self) -> bool {
+        self.inner.pwf() && forall|t: T| #[trigger] self.map_fn.requires((t,))
+    }
+    open spec fn rel(&self, pre: State, r: Result<R, Error>, post: State) -> bool {
+        exists|ri: Result<T, Error>| #[trigger] self.inner.rel(pre, ri, post) && match ri {
+            Ok(t) => r is Ok && self.map_fn.ensures((t,), r->Ok_0),
+            Err(e) => r == Err::<R, Error>(e),
+        }
+    }
+//@@ drop fn meta
+//@@ end
+
+
+//@@ type src/structs.rs | struct ParseWith
+//@@ unit structs.ParseWith tags=
+//@@ end
+
+//@@ fn src/structs.rs | impl Parser for ParseWith | fn eval
+//@@ unit structs.ParseWith.eval tags=C06
+//@@ members
+    open spec fn pwf(&self) -> bool {
+        self.inner.pwf() && forall|t: T| #[trigger] self.parse_fn.requires((t,))
+    }
+    /// a value the user's `parse` function rejects becomes the *final* error ParseFailed(position, e.to_string())
+    open spec fn rel(&self, pre: State, r: Result<R, Error>, post: State) -> bool {
+        exists|ri: Result<T, Error>| #[trigger] self.inner.rel(pre, ri, post) && match ri {
+            Ok(t) => exists|pr: Result<R, E>| #[trigger] self.parse_fn.ensures((t,), pr) && match pr {
+                Ok(v) => r == Ok::<R, Error>(v),
+                Err(e) => exists|s: String| call_ensures(E::to_string, (&e,), s) && r == Err::<R, Error>(Error(Message::ParseFailed(post.current, s))),
+            },
+            Err(e) => r == Err::<R, Error>(e),
+        }
+    }
+//@@ drop fn meta
+//@@ end
+
+//@@ type src/structs.rs | struct ParseFallback
+//@@ unit structs.ParseFallback tags=
+//@@ end
+
+//@@ fn src/structs.rs | impl Parser for ParseFallback | fn eval
+//@@ unit structs.ParseFallback.eval tags=C05,C06,C20
+//@@ members
+    open spec fn pwf(&self) -> bool { self.inner.pwf() }
+    /// inner success: its value and its state; inner failure: the default iff the error is catchable, and
+    /// then the state is the pre-attempt state; any other failure is returned unchanged with the pre-attempt state
+    open spec fn rel(&self, pre: State, r: Result<T, Error>, post: State) -> bool {
+        exists|ri: Result<T, Error>, mid: State| #[trigger] self.inner.rel(pre, ri, mid) && step(pre, mid) && match ri {
+            Ok(v) => r == Ok::<T, Error>(v) && post == mid,
+            Err(e) => restored(pre, mid, post) && (if catchable(e.0) { r is Ok && call_ensures(T::clone, (&self.value,), r->Ok_0) } else { r == Err::<T, Error>(e) }),
+        }
+    }
+//@@ drop fn meta
+//@@ end
+
+//@@ type src/structs.rs | struct ParseFallbackWith
+//@@ unit structs.ParseFallbackWith tags=
+//@@ end
+
+//@@ fn src/structs.rs | impl Parser for ParseFallbackWith | fn eval
+//@@ unit structs.ParseFallbackWith.eval tags=C05,C06,C20
+//@@ members
+    open spec fn pwf(&self) -> bool { self.inner.pwf() && self.fallback.requires(()) }
+    open spec fn rel(&self, pre: State, r: Result<T, Error>, post: State) -> bool {
+        exists|ri: Result<T, Error>, mid: State| #[trigger] self.inner.rel(pre, ri, mid) && step(pre, mid) && match ri {
+            Ok(v) => r == Ok::<T, Error>(v) && post == mid,
+            Err(e) => restored(pre, mid, post) && (if catchable(e.0) {
+                    exists|fr: Result<T, E>| #[trigger] self.fallback.ensures((), fr) && match fr {
+                        Ok(v) => r == Ok::<T, Error>(v),
+                        Err(fe) => exists|s: String| call_ensures(E::to_string, (&fe,), s) && r == Err::<T, Error>(Error(Message::PureFailed(s))),
+                    }
+                } else { r == Err::<T, Error>(e) }),
+        }
+    }
+//@@ drop fn meta
+//@@ end
+
+
+//@@ type src/structs.rs | struct ParsePure
+//@@ unit structs.ParsePure tags=
+//@@ end
+
+//@@ fn src/structs.rs | impl Parser for ParsePure | fn eval
+//@@ unit structs.ParsePure.eval tags=C05
+//@@ members
+    open spec fn pwf(&self) -> bool { true }
+    /// consumes nothing, always succeeds
+    open spec fn rel(&self, pre: State, r: Result<T, Error>, post: State) -> bool {
+        r is Ok && call_ensures(T::clone, (&self.0,), r->Ok_0) && post.same_but_current(pre) && post.current is None
+    }
+//@@ drop fn meta
+//@@ end
+
+//@@ type src/structs.rs | struct ParsePureWith
+//@@ unit structs.ParsePureWith tags=
+//@@ attr
+#[verifier::reject_recursive_types(T)]
+#[verifier::reject_recursive_types(E)]
+//@@ end
+
+//@@ fn src/structs.rs | impl Parser for ParsePureWith | fn eval
+//@@ unit structs.ParsePureWith.eval tags=C05
+//@@ members
+    open spec fn pwf(&self) -> bool { self.0.requires(()) }
+    open spec fn rel(&self, pre: State, r: Result<T, Error>, post: State) -> bool {
+        post == pre && exists|fr: Result<T, E>| #[trigger] self.0.ensures((), fr) && match fr {
+            Ok(v) => r == Ok::<T, Error>(v),
+            Err(fe) => exists|s: String| call_ensures(E::to_string, (&fe,), s) && r == Err::<T, Error>(Error(Message::PureFailed(s))),
+        }
+    }
+//@@ drop fn meta
+//@@ end
+
+//@@ type src/structs.rs | struct ParseFail
+//@@ unit structs.ParseFail tags=
+//@@ end
+
+//@@ fn src/structs.rs | impl Parser for ParseFail | fn eval
+//@@ unit structs.ParseFail.eval tags=C05
+//@@ members
+    open spec fn pwf(&self) -> bool { true }
+    open spec fn rel(&self, pre: State, r: Result<T, Error>, post: State) -> bool {
+        r == Err::<T, Error>(Error(Message::ParseFail(self.field1))) && post.same_but_current(pre) && post.current is None
+    }
+//@@ drop fn meta
+//@@ end
+
+//@@ type src/structs.rs | struct ParseHide
+//@@ unit structs.ParseHide tags=
+//@@ end
+
+//@@ fn src/structs.rs | impl Parser for ParseHide | fn eval
+//@@ unit structs.ParseHide.eval tags=C05,C12,C14,C20
+//@@ members
+    open spec fn pwf(&self) -> bool { self.inner.pwf() }
+    /// same outcome and state as the inner parser, except that a Missing(..) error forgets which items were missing
+    open spec fn rel(&self, pre: State, r: Result<T, Error>, post: State) -> bool {
+        exists|ri: Result<T, Error>| #[trigger] self.inner.rel(pre, ri, post) && match ri {
+            Ok(v) => r == Ok::<T, Error>(v),
+            Err(e) => if e.0 is Missing { r is Err && r->Err_0.0 is Missing && r->Err_0.0->Missing_0@ == Seq::<MissingItem>::empty() } else { r == Err::<T, Error>(e) },
+        }
+    }
+//@@ drop fn meta
+//@@ end
+
+//@@ type src/structs.rs | struct ParseUsage
+//@@ unit structs.ParseUsage tags=
+//@@ end
+
+//@@ fn src/structs.rs | impl Parser for ParseUsage | fn eval
+//@@ unit structs.ParseUsage.eval tags=C05,C12
+//@@ members
+    open spec fn pwf(&self) -> bool { self.inner.pwf() }
+    open spec fn rel(&self, pre: State, r: Result<T, Error>, post: State) -> bool { self.inner.rel(pre, r, post) }
+//@@ drop fn meta
+//@@ end
+
+//@@ type src/structs.rs | struct ParseGroupHelp
+//@@ unit structs.ParseGroupHelp tags=
+//@@ end
+
+//@@ fn src/structs.rs | impl Parser for ParseGroupHelp | fn eval
+//@@ unit structs.ParseGroupHelp.eval tags=C05,C12,C20
+//@@ members
+    open spec fn pwf(&self) -> bool { self.inner.pwf() }
+    open spec fn rel(&self, pre: State, r: Result<T, Error>, post: State) -> bool { self.inner.rel(pre, r, post) }
+//@@ drop fn meta
+//@@ end
+
+//@@ type src/buffer.rs | struct MetaInfo
+//@@ unit buffer.MetaInfo tags=
+//@@ end
+
+//@@ type src/structs.rs | struct ParseWithGroupHelp
+//@@ unit structs.ParseWithGroupHelp tags=
+//@@ end
+
+//@@ fn src/structs.rs | impl Parser for ParseWithGroupHelp | fn eval
+//@@ unit structs.ParseWithGroupHelp.eval tags=C05,C12
+//@@ members
+    open spec fn pwf(&self) -> bool { self.inner.pwf() }
+    open spec fn rel(&self, pre: State, r: Result<T, Error>, post: State) -> bool { self.inner.rel(pre, r, post) }
+//@@ drop fn meta
 //@@ end
 
 }
